@@ -463,6 +463,10 @@ def profile_C15(g, tier):
         vms_params[f"to_state_{vm}"] = chain[j]
     if g.chance("remove_set", 0.25):
         vms_params["remove_set"] = g.pick("rs", ["minimal", "leaves", "normal"])
+    for vm in selected:
+        # a remove set of one vm only (overrides the general one for that vm)
+        if g.chance(f"remove_set_{vm}", 0.25):
+            vms_params[f"remove_set_{vm}"] = g.pick(f"rs{vm}", ["minimal", "leaves", "normal"])
     if g.chance("invalid", 0.1):
         vm = selected[0]
         vms_params[g.pick("which", [f"from_state_{vm}", f"to_state_{vm}"])] = g.pick("bogus", ["nonexistent", "custmize"])
